@@ -20,6 +20,7 @@
 -/
 import PdshVerif.Relay.TailLemmas
 import PdshVerif.Relay.Interleave
+import PdshVerif.Relay.Simulation
 
 namespace PdshVerif.C05
 open PdshVerif.Relay
@@ -142,6 +143,22 @@ theorem relay_lossless_any_interleaving (cfg : Cfg) (names : Nat → Bytes) {siz
       Spec.render (labelPrefix cfg.labels cfg.keep (names k.1)) script.flatten := by
   rw [global_stream_is_runStream fifoOps cfg names b0 evs k script hk]
   exact relay_lossless cfg (names k.1) (names 0) (strmNo k) (!k.2) hm1 hm2 hb0 script hdom
+
+/-- TRANSFER to the index-level relay (`indexOps`: the model of cbuf.c's indices and data array,
+    the instance that is executed against the real code).  HYPOTHESIS `hsim`: the buffer-level
+    obligations `Sim indexOps fifoOps R` of Relay/Simulation.lean -- related buffers answer the
+    three cbuf calls alike and stay related -- for some relation `R` that holds of the freshly
+    created buffers.  That is property C13's refinement statement (plus the two scalar policy
+    facts); it is NOT proved here.  Under it the index-level relay is lossless as well. -/
+theorem relay_lossless_index {R : Cbuf.Cbuf → PBuf → Prop} (hsim : Sim indexOps fifoOps R)
+    (cfg : Cfg) (host t0host : Bytes) (strm : Nat) (readRc : Bool)
+    {sizeMeta : Nat} (hm1 : 1 ≤ sizeMeta) (hm2 : sizeMeta ≤ 800) {a0 : Cbuf.Cbuf} {b0 : PBuf}
+    (hb0 : mkFifoBuf sizeMeta = some b0) (hR : R a0 b0) (script : List Bytes)
+    (hdom : Spec.Dom05 (markerOf readRc) script.flatten = true) :
+    written (runStream indexOps cfg host t0host strm readRc a0 script).ems =
+      Spec.render (labelPrefix cfg.labels cfg.keep host) script.flatten := by
+  rw [(runStream_sim hsim cfg host t0host strm readRc a0 b0 hR script).1]
+  exact relay_lossless cfg host t0host strm readRc hm1 hm2 hb0 script hdom
 
 /-! ### `_extract_rc`: why the marker is excluded from the domain -/
 
